@@ -1,0 +1,20 @@
+//go:build verif
+
+package pfcp
+
+// Verification hooks (build tag "verif"). They are compiled only when the
+// verification harness builds the package; the regular build uses the empty
+// counterparts in verif_off.go.
+
+// VerifIdle, when set before Start, is called by the event-loop goroutine at
+// the top of every iteration of the loop in (*PfcpServer).main: after the
+// previous event has been processed completely and before the next one is
+// consumed. It runs in the goroutine that owns all PFCP state, so it may read
+// that state without synchronisation. A blocking VerifIdle gates the loop.
+var VerifIdle func(s *PfcpServer)
+
+func (s *PfcpServer) verifIdle() {
+	if f := VerifIdle; f != nil {
+		f(s)
+	}
+}
